@@ -787,6 +787,10 @@ impl<'a> Tr<'a> {
             let a = self.expr(&c.args[0], None)?;
             return Ok(Out { pre: a.pre, term: a.term, ty: Ty::Str, diverges: false });
         }
+        // type-only helpers of the iterator DSL
+        if last == "__get_item_ty" || last == "__assert_item_ty" {
+            return Ok(Out::pure("()".into(), Ty::Unit));
+        }
         // MaybeUninit / ManuallyDrop plumbing
         if last == "uninit_array" && c.args.is_empty() {
             if self.const_generics.len() != 1 {
@@ -1027,6 +1031,47 @@ impl<'a> Tr<'a> {
             if let Expr::Path(pp) = peel(&m.receiver) {
                 if pp.path.is_ident("teq") {
                     return self.expr(&m.args[0], expect);
+                }
+            }
+        }
+        // `IntoIterWrapper { iter: ManuallyDrop::new(x), marker }.coerce().const_into_iter()` (the `into_iter!` macro):
+        // a slice becomes `slice_into_iter::iter(x)`, something that already is a konst iterator stays itself
+        if name == "const_into_iter" && m.args.is_empty() {
+            if let Expr::MethodCall(co) = peel(&m.receiver) {
+                if co.method == "coerce" {
+                    if let Expr::Struct(st) = peel(&co.receiver) {
+                        if st.path.segments.last().map(|s| s.ident == "IntoIterWrapper").unwrap_or(false) {
+                            let f = st.fields.iter().find(|f| matches!(&f.member, syn::Member::Named(id) if id == "iter"));
+                            if let Some(f) = f {
+                                let mut inner = peel(&f.expr);
+                                if let Expr::Call(c) = inner {
+                                    if let Expr::Path(pp) = peel(&c.func) {
+                                        if pp.path.segments.last().map(|s| s.ident == "new").unwrap_or(false) && c.args.len() == 1 {
+                                            inner = &c.args[0];
+                                        }
+                                    }
+                                }
+                                let x = self.expr(inner, None)?;
+                                match self.sub.shallow(&x.ty) {
+                                    Ty::Slice(_) | Ty::Str => {
+                                        let fi = self
+                                            .idx
+                                            .fn_by_name
+                                            .get("iter")
+                                            .and_then(|v| v.iter().copied().find(|i| self.reg.fns.contains_key(i) && self.idx.fns[*i].path.contains("slice_into_iter")))
+                                            .ok_or_else(|| "into_iter of a slice: `slice_into_iter::iter` is not a translation target".to_string())?;
+                                        let lean = self.reg.fns[&fi].lean.clone();
+                                        let t = self.fresh("t");
+                                        let mut pre = x.pre;
+                                        pre.push(format!("let {} ← Ctl.call ({} {})", t, lean, x.term));
+                                        return Ok(Out { pre, term: t, ty: Ty::Adt("Iter".into()), diverges: false });
+                                    }
+                                    Ty::Adt(_) => return Ok(x),
+                                    other => return self.err(m.span(), &format!("into_iter of {}", other)),
+                                }
+                            }
+                        }
+                    }
                 }
             }
         }
